@@ -172,6 +172,10 @@ func decodeProtobufSignDoc(signDocBytes []byte) (apitypes.TypedData, error) {
 
 	signerInfo := authInfo.SignerInfos[0]
 
+	if authInfo.Fee == nil {
+		return apitypes.TypedData{}, errors.New("invalid auth info: fee is missing")
+	}
+
 	chainID, err := evertypes.ParseChainID(signDoc.ChainId)
 	if err != nil {
 		return apitypes.TypedData{}, fmt.Errorf("invalid chain ID passed as argument: %w", err)
